@@ -34,8 +34,10 @@ pub struct Utxo {
 pub struct UtxoExpect {
     /// (txid display, index) -> entry
     pub map: BTreeMap<(String, u32), Utxo>,
-    /// true if some output in range had an unconstrained address (then the oracle abstains on set equality)
+    /// true if some output in range had an unconstrained address
     pub tainted: bool,
+    /// outpoints (txid display, index) whose address is unconstrained: rows for them are neither required nor forbidden
+    pub unknown: std::collections::BTreeSet<(String, u32)>,
 }
 
 #[derive(Clone, Debug, Default)]
@@ -69,6 +71,22 @@ impl<'a> Model<'a> {
                 vb.push(t.outputs.iter().map(|o| scriptref::eval(&scn.coin, &o.script.0)).collect());
             }
             verdicts.push(vb);
+        }
+        // outputs declared hostile (C14): nothing derived from the field itself is judged
+        if let Some(list) = scn.params.get("hostile_outputs").and_then(|v| v.as_array()) {
+            for e in list {
+                if let Some(a) = e.as_array() {
+                    let g = |i: usize| a.get(i).and_then(|x| x.as_u64()).unwrap_or(u64::MAX) as usize;
+                    let (bi, ti, oi) = (g(0), g(1), g(2));
+                    if let Some(vd) = verdicts.get_mut(bi).and_then(|b: &mut Vec<Vec<Verdict>>| b.get_mut(ti)).and_then(|t| t.get_mut(oi)) {
+                        *vd = Verdict {
+                            ty: Ty::Unknown,
+                            addr: AddrV::Unknown,
+                            opret: OpRet::Unknown,
+                        };
+                    }
+                }
+            }
         }
         Model { scn, built, verdicts }
     }
@@ -160,6 +178,7 @@ impl<'a> Model<'a> {
     pub fn utxo(&self, s: u64, e: u64) -> UtxoExpect {
         let mut map: HashMap<(Vec<u8>, u32), Utxo> = HashMap::new();
         let mut tainted = false;
+        let mut unknown = std::collections::BTreeSet::new();
         for bi in self.idx_range(s, e) {
             let b = &self.scn.chain[bi];
             let bb = &self.built.active[bi];
@@ -185,7 +204,10 @@ impl<'a> Model<'a> {
                         AddrV::None => {
                             // an address-less output with the same txid+index does not replace anything
                         }
-                        AddrV::Unknown => tainted = true,
+                        AddrV::Unknown => {
+                            tainted = true;
+                            unknown.insert((hex_rev(&bb.txs[ti].txid), oi as u32));
+                        }
                     }
                 }
             }
@@ -194,7 +216,7 @@ impl<'a> Model<'a> {
         for ((txid, idx), u) in map {
             out.insert((hex_rev(&txid), idx), u);
         }
-        UtxoExpect { map: out, tainted }
+        UtxoExpect { map: out, tainted, unknown }
     }
 
     pub fn unspent_rows(&self, s: u64, e: u64) -> (Vec<String>, bool) {
@@ -202,6 +224,7 @@ impl<'a> Model<'a> {
         let rows = u
             .map
             .iter()
+            .filter(|(k, _)| !u.unknown.contains(*k))
             .map(|((txid, idx), v)| format!("{};{};{};{};{}", txid, idx, v.height, v.value, v.address))
             .collect();
         (rows, u.tainted)
